@@ -323,6 +323,17 @@ int main(int argc, char** argv)
             else { close_seekable(); }
             g_nrec = 0;
             printf("\n");
+        } else if (!strcmp(cmd, "reopen")) {        /* reopen : ZSTD_seekable_initBuff on the SAME object with the current archive bytes
+                                                     * (a failed init must leave the object freeable and re-initialisable) */
+            size_t r; unsigned char* old = memcopy;
+            if (!zs) { zs = ZSTD_seekable_create(); g_skipbuf = zs->outBuff; g_curFramePtr = &zs->curFrame; }
+            memcopy = (unsigned char*)malloc(A.n ? A.n : 1); if (A.n) memcpy(memcopy, A.p, A.n);
+            r = ZSTD_seekable_initBuff(zs, memcopy, A.n);
+            free(old);
+            printf("reopen"); print_ret("ret", r);
+            if (!ZSTD_isError(r)) printf(" n=%u cf=%d", ZSTD_seekable_getNumFrames(zs), zs->seekTable.checksumFlag);
+            g_nrec = 0;
+            printf("\n");
         } else if (!strcmp(cmd, "cbfail")) {        /* cbfail seek|read <k> : the k-th next callback of that kind fails once (callback access only) */
             char what[16]; unsigned long long k = 0; what[0] = 0;
             sscanf(line + off, "%15s %llu", what, &k);
